@@ -89,25 +89,25 @@ func bindProp(prop string, harnesses ...string) { propHarness[prop] = harnesses 
 
 // RunRecord is the outcome of one run.
 type RunRecord struct {
-	Seed      uint64          `json:"seed"`
-	Harness   string          `json:"harness"`
-	Prop      string          `json:"prop"`
-	Cfg       json.RawMessage `json:"cfg,omitempty"`
-	SimCfg    simrt.Config    `json:"sim_cfg"`
-	Verdict   string          `json:"verdict"` // ok | violation | precond | inconclusive | hang
-	Viol      []Violation     `json:"violations,omitempty"`
-	Stats     simrt.Stats     `json:"stats"`
-	LogHash   string          `json:"log_hash"`
-	Choices   []uint32        `json:"-"`
-	Kinds     []byte          `json:"-"`
-	Events    []string        `json:"events,omitempty"`
-	Trace     []string        `json:"trace,omitempty"`
-	Cover     map[string]uint64 `json:"cover,omitempty"`
-	Panic     string          `json:"panic,omitempty"`
-	NonTriv   bool            `json:"nontrivial"`
-	Desc      string          `json:"desc,omitempty"`
-	Diverged  int             `json:"diverged,omitempty"`
-	WallUs    int64           `json:"wall_us"`
+	Seed     uint64            `json:"seed"`
+	Harness  string            `json:"harness"`
+	Prop     string            `json:"prop"`
+	Cfg      json.RawMessage   `json:"cfg,omitempty"`
+	SimCfg   simrt.Config      `json:"sim_cfg"`
+	Verdict  string            `json:"verdict"` // ok | violation | precond | inconclusive | hang
+	Viol     []Violation       `json:"violations,omitempty"`
+	Stats    simrt.Stats       `json:"stats"`
+	LogHash  string            `json:"log_hash"`
+	Choices  []uint32          `json:"-"`
+	Kinds    []byte            `json:"-"`
+	Events   []string          `json:"events,omitempty"`
+	Trace    []string          `json:"trace,omitempty"`
+	Cover    map[string]uint64 `json:"cover,omitempty"`
+	Panic    string            `json:"panic,omitempty"`
+	NonTriv  bool              `json:"nontrivial"`
+	Desc     string            `json:"desc,omitempty"`
+	Diverged int               `json:"diverged,omitempty"`
+	WallUs   int64             `json:"wall_us"`
 }
 
 func hashEvents(evs []simrt.Event, trace uint64) string {
@@ -121,22 +121,22 @@ func hashEvents(evs []simrt.Event, trace uint64) string {
 
 // ReplayFile is the on-disk replay artefact.
 type ReplayFile struct {
-	Property  string          `json:"property"`
-	Harness   string          `json:"harness"`
-	Seed      uint64          `json:"seed"`
-	TreeHash  string          `json:"tree_hash,omitempty"`
-	Cfg       json.RawMessage `json:"cfg"`
-	SimCfg    simrt.Config    `json:"sim_cfg"`
-	NChoices  int             `json:"n_choices"`
+	Property  string            `json:"property"`
+	Harness   string            `json:"harness"`
+	Seed      uint64            `json:"seed"`
+	TreeHash  string            `json:"tree_hash,omitempty"`
+	Cfg       json.RawMessage   `json:"cfg"`
+	SimCfg    simrt.Config      `json:"sim_cfg"`
+	NChoices  int               `json:"n_choices"`
 	Choices   map[string]uint32 `json:"choices"` // sparse: index -> nonzero value
-	Kinds     string          `json:"kinds,omitempty"`
-	Class     string          `json:"class"`
-	Sig       string          `json:"sig"`
-	Detail    string          `json:"detail"`
-	LogHash   string          `json:"log_hash"`
-	Minimised bool            `json:"minimised"`
-	Schedule  []string        `json:"schedule,omitempty"`
-	Events    []string        `json:"events,omitempty"`
+	Kinds     string            `json:"kinds,omitempty"`
+	Class     string            `json:"class"`
+	Sig       string            `json:"sig"`
+	Detail    string            `json:"detail"`
+	LogHash   string            `json:"log_hash"`
+	Minimised bool              `json:"minimised"`
+	Schedule  []string          `json:"schedule,omitempty"`
+	Events    []string          `json:"events,omitempty"`
 }
 
 func sparse(vec []uint32) map[string]uint32 {
